@@ -117,7 +117,20 @@ def parse_errors():
     if not codes or ("NoError", 0) not in codes:
         die("SourmashErrorCode values not recognised")
     fe = block_after(src, r"fn\s+from_error\s*\([^)]*\)\s*->\s*SourmashErrorCode\s*\{", "SourmashErrorCode::from_error")
-    arms = re.findall(r"SourmashError::(\w+)\s*(?:\{[^}]*\}|\([^)]*\))?\s*=>\s*\{?\s*SourmashErrorCode::(\w+)", fe)
+    # arms `<path>::Kind <payload pattern>? (| …)* => {? <path>::Code`: the path prefixes are whatever the
+    # function uses (full names, `Self`, local `use … as` aliases, glob imports); an arm counts when its
+    # last path segments are a declared variant and a declared code
+    m = re.search(r"\bmatch\b[^{]*\{", fe)
+    mb = fe[m.end():] if m else fe
+    flat = re.sub(r"(\w)\s*(?:\{[^{}]*\}|\([^()]*\))\s*(?==>|\|)", r"\1 ", mb)
+    knames, cnames = set(kinds), {c for c, _ in codes}
+    arms = []
+    for am in re.finditer(r"((?:[\w:\s]|\|)+?)=>\s*\{?\s*([\w:\s]+?)\s*[,}]", flat):
+        rhs = am.group(2).split("::")[-1].strip()
+        for alt in am.group(1).split("|"):
+            lhs = alt.split("::")[-1].strip()
+            if lhs in knames and rhs in cnames:
+                arms.append((lhs, rhs))
     if not arms:
         die("from_error arms not recognised")
     if re.search(r"\b_\s*=>", fe):
